@@ -444,7 +444,7 @@ def observed_equivariant(f: dict, seed: int) -> bool:
         if (kk in a) != (kk in b):
             return False
         if kk in a and isinstance(a[kk], torch.Tensor):
-            if a[kk].shape != b[kk].shape or not torch.allclose(a[kk].float(), b[kk].float(), rtol=1e-4, atol=1e-6):
+            if a[kk].shape != b[kk].shape or not _close(a[kk], b[kk], 1e-4):
                 return False
     sa, sb = float(a["scaling_factor"]), float(b["scaling_factor"])
     return sa > 0 and abs(sb / sa - 8.0) < 1e-3
@@ -529,6 +529,13 @@ def correspondence(ctx: Ctx):
 
 # --------------------------------------------------------------------------------------------------
 # oracle on the real code
+def _close(a: torch.Tensor, b: torch.Tensor, rel: float) -> bool:
+    """max-norm closeness relative to the magnitude of the tensor (rounding of a cancelling sum is relative to
+    its terms, not to the result)"""
+    a, b = a.double(), b.double()
+    return bool((a - b).abs().max() <= rel * max(a.abs().max().item(), b.abs().max().item(), 1e-30))
+
+
 def _tensor_keys(out):
     return [k for k, v in out.items() if isinstance(v, torch.Tensor)]
 
@@ -647,6 +654,10 @@ def check_config(cfg, k: np.ndarray):
     for kk in _tensor_keys(base):
         if not torch.isfinite(base[kk].float()).all():
             yield Violation("nonfinite-" + kk, f"output `{kk}` contains NaN/Inf", {**rep, "key": kk})
+    for kk in ["target", "scaling_factor"] + (["input_kspace", "kspace"] if f["ssl"] else ["masked_kspace"]):
+        if kk not in base:
+            yield Violation("missing-output-" + kk, f"the output lacks `{kk}`", {**rep, "missing": [kk]})
+            return
     # (i) scaling by 2^k bit-exact, arbitrary positive reals to 1e-4
     for kpow in (-14, -3, 1, 3, 12):
         sc = 2.0 ** kpow
@@ -670,8 +681,7 @@ def check_config(cfg, k: np.ndarray):
     o = run(sc)
     for kk in NORMALISED:
         if kk in base and isinstance(base[kk], torch.Tensor):
-            if kk not in o or base[kk].shape != o[kk].shape or not torch.allclose(
-                    base[kk].float(), o[kk].float(), rtol=1e-4, atol=1e-5):
+            if kk not in o or base[kk].shape != o[kk].shape or not _close(base[kk], o[kk], 1e-4):
                 yield Violation("equivariance-real-" + kk, f"`{kk}` changes under scaling by {sc}",
                                 {**rep, "scale": sc, "key": kk})
     s0, s1 = float(base["scaling_factor"]), float(o["scaling_factor"])
@@ -680,8 +690,14 @@ def check_config(cfg, k: np.ndarray):
                         {**rep, "scale": sc, "expected": s0 * sc, "observed": s1})
     # (ii)/(iii) self-consistency, with the normalised fully sampled k-space kept in the sample
     full = run(1.0, keep_kspace=True)
-    dim = (1, 2) if not three_d else (2, 3)
     _, bwd = _ops(cfg.get("centered", True))
+    need = ["target", "scaling_factor", "kspace"] + (
+        ["input_kspace", "input_sampling_mask", "target_sampling_mask"] if f["ssl"] else ["masked_kspace", "sampling_mask"])
+    missing = [kk for kk in need if kk not in full]
+    if missing:
+        yield Violation("missing-output-" + missing[0], f"with delete_kspace=False the output lacks {missing}",
+                        {**rep, "missing": missing})
+        return
     if not f["ssl"]:
         kn = full["kspace"]
         exp_masked, _ = T.apply_mask(kn, full["sampling_mask"])
@@ -696,7 +712,7 @@ def check_config(cfg, k: np.ndarray):
             smp["sensitivity_map"] = full["sensitivity_map"].clone()
         exp_t = ComputeImage(kspace_key=KspaceKey.KSPACE, target_key=TransformKey.TARGET, backward_operator=bwd,
                              type_reconstruction=RECON[f["recon"]])(smp)["target"]
-        if full["target"].shape != exp_t.shape or not torch.allclose(full["target"], exp_t, rtol=1e-5, atol=1e-6):
+        if full["target"].shape != exp_t.shape or not _close(full["target"], exp_t, 1e-5):
             yield Violation("target-not-recon-of-normalised", "target != ComputeImage(normalised k-space)", rep)
         if not torch.allclose(base["target"], full["target"], rtol=0, atol=0):
             yield Violation("delete-kspace-changes-output", "target depends on delete_kspace", rep)
@@ -715,7 +731,7 @@ def check_config(cfg, k: np.ndarray):
             smp["sensitivity_map"] = full["sensitivity_map"].clone()
         exp_t = ComputeImage(kspace_key=KspaceKey.KSPACE, target_key=TransformKey.TARGET, backward_operator=bwd,
                              type_reconstruction=RECON[f["recon"]])(smp)["target"]
-        if full["target"].shape != exp_t.shape or not torch.allclose(full["target"], exp_t, rtol=1e-5, atol=1e-6):
+        if full["target"].shape != exp_t.shape or not _close(full["target"], exp_t, 1e-5):
             yield Violation("target-not-recon-of-normalised", "SSL target != ComputeImage(output k-space)", rep)
     # (iv) crop shapes
     if f["crop"]:
